@@ -51,8 +51,11 @@ GridLaws ==
               /\ RoundTrip(g, g)
               /\ PathIndependent(g, g)
               /\ CoordsLaw(g)
-              /\ Discriminates(g)
               /\ ItkLaws(g, {ProbesOf(GDim(g))[i] : i \in 1..Len(ProbesOf(GDim(g)))})
+\* lattice quality, not a law of grids: on the QUICK lattice every grid tells all 16 maps apart, so that a replayed case cannot
+\* pass with a confused pair of axes.  The thorough lattice deliberately contains symmetric grids (e.g. a 180 degree rotation about
+\* the origin with unit spacing, where grid->world is its own inverse), for which this cannot hold.
+DiscInv == st = 4 => Discriminates(g)
 ItkInv ==
     st = 4 => /\ IsOrthogonal(g.R)
               /\ ItkLaws(g, {ProbesOf(GDim(g))[i] : i \in 1..Len(ProbesOf(GDim(g)))})
